@@ -191,6 +191,34 @@ def the_spec(deck):
     return deck['transforms'][0]['spec']
 
 
+def identity_check(case, deck, t4, box):
+    """For a single elementary surface carrying a TR number: the written T4
+    surface function must be a constant multiple of the MCNP function
+    evaluated at the inverse image (randomized polynomial identity, 1e-8):
+    point sampling alone would not see a displacement error of 1e-5."""
+    if 'mode:surf-tr' not in case['labels']:
+        return None
+    s_ = deck['surfaces'][0]
+    if s_['kind'].lower() in mgeom.MACRO_KINDS or s_['id'] not in t4.surfs:
+        return None
+    from .. import t4eval
+    T = md.rigid_of(deck['transforms'][0]['spec'])
+    rng = np.random.Generator(np.random.PCG64(case['pseed'] + 3))
+    Q = rng.uniform(-box, box, (60, 3))
+    f, fs, _cone = mgeom.surface_fs(s_['kind'], s_['params'], T.to_aux(Q))
+    g, gs = t4eval.surf_value(t4.surfs[s_['id']], Q)
+    good = (np.abs(f) > 1e-3 * fs) & (np.abs(g) > 1e-3 * gs)
+    if good.sum() < 10:
+        return None
+    ratio = g[good] / f[good]
+    r0 = np.median(ratio)
+    if r0 == 0 or np.max(np.abs(ratio - r0)) > 1e-8 * abs(r0):
+        return {'problem': 'transformed T4 surface function is not a constant '
+                'multiple of the MCNP function at the inverse image',
+                'spread': float(np.max(np.abs(ratio - r0)) / abs(r0))}
+    return None
+
+
 def check(case):
     deck = case['deck']
     text = mr.render(deck)
@@ -233,6 +261,10 @@ def check(case):
                  or l.startswith('macro:')]
         return violation('motion:%s:%s' % (mism[0]['kind'], tag),
                          {'mismatches': mism, 'deck': text, 'objects': kinds},
+                         labels, counts=counts)
+    ident = identity_check(case, deck, t4, box)
+    if ident is not None:
+        return violation('motion:identity:%s' % tag, dict(ident, deck=text),
                          labels, counts=counts)
     owners = set(int(o) for o in cmp_.loc.owner[cmp_.decided])
     nontrivial = (not rot_id) and (not no_disp) and len(owners) >= 2
